@@ -12,9 +12,12 @@ import (
 	"fmt"
 	"math"
 	"math/rand"
+	"os"
 	"sort"
 	"strconv"
 	"strings"
+	"sync"
+	"sync/atomic"
 
 	cstate "0chain.net/chaincore/chain/state"
 	"0chain.net/chaincore/transaction"
@@ -26,6 +29,7 @@ import (
 	"0chain.net/smartcontract/storagesc"
 	"0chain.net/smartcontract/zcnsc"
 	"github.com/0chain/common/core/currency"
+	"github.com/0chain/common/core/statecache"
 	"github.com/0chain/common/core/util"
 	"github.com/herumi/bls-go-binary/bls"
 	"verifharness/lib/engine"
@@ -116,7 +120,8 @@ func keyID(k int) string {
 	if k >= 0 && k < len(Keys) {
 		return Keys[k].ID
 	}
-	return encryption.Hash(fmt.Sprintf("no-such-authorizer-%d", k))
+	// ids that belong to no key: they sort after every real id, in index order (the model orders ids by index)
+	return strings.Repeat("f", 60) + fmt.Sprintf("%04x", k)
 }
 
 // ---------------------------------------------------------------------------------------------------------------
@@ -127,14 +132,44 @@ type W struct {
 	known   map[string]bool
 	nonces  []int64 // mint nonce universe of the case
 	FeeOn   bool
+	opIdx   int
 	MinBurn uint64
 }
 
-func delegateName(j int) string { return encryption.Hash(fmt.Sprintf("delegate-%02d", j)) }
+// delegateName: delegate ids numbered in the order of the id strings (OrderedPoolIds order = index order).
+var delegateNames []string
+
+func delegateName(j int) string {
+	if delegateNames == nil {
+		for i := 0; i < 16; i++ {
+			delegateNames = append(delegateNames, encryption.Hash(fmt.Sprintf("delegate-%02d", i)))
+		}
+		sort.Strings(delegateNames)
+	}
+	return delegateNames[j]
+}
 
 func partitionsGet(sctx cstate.StateContextI) (*partitions.Partitions, error) {
 	return partitions.GetPartitions(sctx, mintedName)
 }
+
+// engine.World derives block hashes from the World's address (%p); after garbage collection a later World can get
+// the same address, and the process-wide state cache (keyed by block hash) would then serve values of an earlier
+// case. Every block of every case therefore gets a hash that is unique in the process.
+var blockCtr int64
+
+func uniqBlock(w *engine.World) {
+	n := atomic.AddInt64(&blockCtr, 1)
+	w.B.Hash = encryption.Hash(fmt.Sprintf("zcnw-block-%d-%d", n, w.Round))
+	w.BC = statecache.NewBlockCache(w.C.GetStateCache(), statecache.Block{Round: w.B.Round, Hash: w.B.Hash, PrevHash: w.B.PrevHash})
+}
+
+func (x *W) nextBlock() {
+	x.w.NextBlock()
+	uniqBlock(x.w)
+}
+
+var blockMode = os.Getenv("ZCNW_BLOCKS")
 
 var mintedName = encryption.Hash(zcnsc.ADDRESS + ":wzcn_minted_nonce_partition")
 
@@ -285,6 +320,7 @@ func Init(ws []string, nonceUniverse []int64) (*W, error) {
 		return nil, err
 	}
 	x.w = wd
+	uniqBlock(wd)
 	x.known = map[string]bool{}
 	for i := 0; i <= NIDs; i++ {
 		x.known[idOf(i)] = true
@@ -605,11 +641,29 @@ func (x *W) Step(op string) string {
 	default:
 		return "bad-op"
 	}
-	if rand.Intn(5) == 0 { // block boundaries at arbitrary points do not matter
-		x.w.NextBlock()
+	// block boundaries at arbitrary (but reproducible) points: they must not matter
+	x.opIdx++
+	if strings.HasPrefix(blockMode, "mask:") { // debugging aid: explicit boundary pattern
+		m, _ := strconv.ParseUint(blockMode[5:], 10, 64)
+		if m>>(uint(x.opIdx)%64)&1 == 1 {
+			x.nextBlock()
+		}
+	} else if h := encryption.Hash(op); h[0] < '4' || blockMode == "all" {
+		if blockMode != "none" {
+			x.nextBlock()
+		}
 	}
+	statMu.Lock()
+	Stats[w[0]+":"+status+":"+strings.SplitN(cls, ":", 2)[0]]++
+	statMu.Unlock()
 	return status + " " + cls + " " + extra + " " + x.State()
 }
+
+// Stats counts (operation, status, error class) over all implementation runs (evidence only).
+var (
+	Stats  = map[string]int{}
+	statMu sync.Mutex
+)
 
 // StringToSign is the real GetStringToSign of the tuple.
 func StringToSign(eth uint64, amount uint64, nonce int64, recv int) string {
